@@ -153,6 +153,23 @@ func newObjMeshReading() objMeshReading {
 	}
 }
 
+// Faces of one group may mix corner syntaxes (v, v/vt, v//vn, v/vt/vn). Corners
+// that come without a normal or uv get a zero one, so that every attribute
+// array of the resulting mesh is as long as its position array.
+func padVector3(data []vector3.Float64, length int) []vector3.Float64 {
+	for len(data) < length {
+		data = append(data, vector3.Zero[float64]())
+	}
+	return data
+}
+
+func padVector2(data []vector2.Float64, length int) []vector2.Float64 {
+	for len(data) < length {
+		data = append(data, vector2.Zero[float64]())
+	}
+	return data
+}
+
 func (omr objMeshReading) empty() bool {
 	return len(omr.tris) == 0
 }
@@ -163,11 +180,11 @@ func (omr objMeshReading) toMesh() ObjMesh {
 		SetMaterials(omr.meshMats)
 
 	if len(omr.normals) > 0 {
-		mesh = mesh.SetFloat3Attribute(modeling.NormalAttribute, omr.normals)
+		mesh = mesh.SetFloat3Attribute(modeling.NormalAttribute, padVector3(omr.normals, len(omr.verts)))
 	}
 
 	if len(omr.uvs) > 0 {
-		mesh = mesh.SetFloat2Attribute(modeling.TexCoordAttribute, omr.uvs)
+		mesh = mesh.SetFloat2Attribute(modeling.TexCoordAttribute, padVector2(omr.uvs, len(omr.verts)))
 	}
 	return ObjMesh{
 		Name: omr.name,
@@ -299,11 +316,11 @@ func ReadMesh(in io.Reader) ([]ObjMesh, []string, error) {
 				workingGeom.verts = append(workingGeom.verts, readVerts[v])
 
 				if vn != -1 {
-					workingGeom.normals = append(workingGeom.normals, readNormals[vn])
+					workingGeom.normals = append(padVector3(workingGeom.normals, len(workingGeom.verts)-1), readNormals[vn])
 				}
 
 				if vt != -1 {
-					workingGeom.uvs = append(workingGeom.uvs, readUVs[vt])
+					workingGeom.uvs = append(padVector2(workingGeom.uvs, len(workingGeom.verts)-1), readUVs[vt])
 				}
 			}
 
@@ -321,11 +338,11 @@ func ReadMesh(in io.Reader) ([]ObjMesh, []string, error) {
 				workingGeom.verts = append(workingGeom.verts, readVerts[v])
 
 				if vn != -1 {
-					workingGeom.normals = append(workingGeom.normals, readNormals[vn])
+					workingGeom.normals = append(padVector3(workingGeom.normals, len(workingGeom.verts)-1), readNormals[vn])
 				}
 
 				if vt != -1 {
-					workingGeom.uvs = append(workingGeom.uvs, readUVs[vt])
+					workingGeom.uvs = append(padVector2(workingGeom.uvs, len(workingGeom.verts)-1), readUVs[vt])
 				}
 			}
 
@@ -343,11 +360,11 @@ func ReadMesh(in io.Reader) ([]ObjMesh, []string, error) {
 				workingGeom.verts = append(workingGeom.verts, readVerts[v])
 
 				if vn != -1 {
-					workingGeom.normals = append(workingGeom.normals, readNormals[vn])
+					workingGeom.normals = append(padVector3(workingGeom.normals, len(workingGeom.verts)-1), readNormals[vn])
 				}
 
 				if vt != -1 {
-					workingGeom.uvs = append(workingGeom.uvs, readUVs[vt])
+					workingGeom.uvs = append(padVector2(workingGeom.uvs, len(workingGeom.verts)-1), readUVs[vt])
 				}
 			}
 
